@@ -118,6 +118,7 @@ void install_crash_handlers() {
     sigaction(SIGABRT, &sa, nullptr);
     sigaction(SIGFPE, &sa, nullptr);
     sigaction(SIGILL, &sa, nullptr);
+    sigaction(SIGALRM, &sa, nullptr); // watchdog of a forked case: report where the load is stuck
 #endif
 }
 
